@@ -203,14 +203,36 @@ def cmd_check(prop, tier, nruns_override=None, workers=None, selftest=True):
     runner.KNOWN_KEYS = frozenset(known)
     dh = determinism_start(prop, tier, DET_RUNS[prop][tier]) if selftest else None
     ad.prepare(tier)
-    agg = runner.run_batch(ad, tier, base, nruns, workers, deadline)
+    try:
+        agg = runner.run_batch(ad, tier, base, nruns, workers, deadline)
+    except BaseException:
+        # the batch itself failed (a worker process died, a timeout): say so in the evidence as well
+        empty = {'n': 0, 'digests': set(), 'nontrivial': set(), 'stats': {}, 'violations': [], 'harness_errors': [{'i': -1, 'trace': traceback.format_exc()[-1500:]}],
+                 'states': set(), 'diagnostics': [], 'samples': [], 'stopped_by_deadline': False, 'known': {}, 'run_digests': [], 'wall_s': time.time() - t0}
+        try:
+            write_evidence(prop, tier, base, ad, empty, None, [], {}, time.time() - t0, status='harness_error')
+        except Exception:
+            pass
+        if dh is not None:
+            for p_ in dh['procs'].values():
+                p_.kill()
+        raise
     det = None
-    if selftest:
+    unknown_found = bool(agg['violations'])
+    if selftest and unknown_found:
+        # violations are reported first: a library defect (e.g. a result read from uninitialised memory) can also
+        # make two interpreters disagree, and must not be reported as a failure of the harness
+        try:
+            det = determinism_join(dh)
+            det['note'] = 'not used for the verdict: the batch found violations'
+        except Exception as e:
+            det = {'identical': None, 'note': 'self-test interpreters failed while the batch found violations: %s' % str(e)[:200]}
+    elif selftest:
         det = determinism_join(dh)
         if tier == 'thorough':
             det['worker_counts'] = worker_count_selftest(ad, tier, base, 600)
             det['identical'] = det['identical'] and det['worker_counts']['identical']
-        if not det['identical'] and det.get('first_diffs'):
+        if not unknown_found and not det['identical'] and det.get('first_diffs'):
             # Same run, same code, two interpreters that differ only in PYTHONHASHSEED.  If each hash seed is
             # consistent with itself and they differ from each other, the run's results depend on the hash seed:
             # the library does not return identical results when called again in another process (clause b).
@@ -227,11 +249,11 @@ def cmd_check(prop, tier, nruns_override=None, workers=None, selftest=True):
                 print('VIOLATION property=%s replay=%s' % (prop, path))
                 write_evidence(prop, tier, base, ad, agg, det, [{'i': i, 'key': 'P2hash', 'path': path}], {}, time.time() - t0)
                 return 1
-        if not det['identical']:
+        if not unknown_found and not det['identical']:
             print('HARNESS-ERROR determinism self-test failed: %r' % det)
             write_evidence(prop, tier, base, ad, agg, det, [], [], time.time() - t0, status='harness_error')
             return 2
-    if agg['harness_errors']:
+    if agg['harness_errors'] and not unknown_found:
         for h in agg['harness_errors'][:3]:
             print('HARNESS-ERROR run %s\n%s' % (h['i'], h['trace']))
         write_evidence(prop, tier, base, ad, agg, det, [], [], time.time() - t0, status='harness_error')
